@@ -414,8 +414,12 @@ Section Guards.
      linked lists - are fine); the guard then CHECKS that the collected set contains cl, is closed
      under the class-typed fields, and that every member is in the fragment, so nothing rests on how
      the set was computed (a wrong or truncated set makes the guard false) *)
+  (* a class-typed field may hold an instance of any strict subclass of the declared class (xsi:type) *)
+  Definition strict_subclasses (kd : cls) : list cls :=
+    filter (fun k => negb (N.eqb k kd) && is_subclass u k kd) (map fst (u_metas u)).
   Definition class_children (m : xmeta) : list cls :=
-    flat_map (fun e => flat_map (fun v => match v_clazz v with Some k => [k] | None => [] end) (snd e)) (m_elements m).
+    flat_map (fun e => flat_map (fun v => match v_clazz v with Some k => k :: strict_subclasses k | None => [] end) (snd e))
+             (m_elements m).
   Fixpoint reach (fuel : nat) (todo seen : list cls) : list cls :=
     match fuel with
     | O => seen
@@ -498,9 +502,39 @@ Section Guards.
 
   Definition nonempty {A} (l : list A) : bool := match l with [] => false | _ => true end.
 
+  (* ---- an instance of a subclass in a field of the base class: written with xsi:type ---- *)
+  (* XmlContext.find_subclass on the type registry (xsi_cache) *)
+  Definition sub_lookup (kd : cls) (t : qname) : option cls :=
+    find (fun tp => negb (is_subclass u kd tp)
+                    && existsb (fun x => existsb (N.eqb x) (u_mro_of u kd)) (u_mro_of u tp))
+         (find_types u t).
+  (* k is a strict subclass of the declared class kd; its metadata names a type qname t
+     - that differs from the element name of the field (refuted: the serializer then drops xsi:type,
+       C01_xsi_type_dropped_refuted) and from the type qname of kd itself,
+     - that the type registry resolves, below kd, to k,
+     - that is not the name of a built-in datatype and that the QName converter round-trips *)
+  Definition derived_ok (v : xvar) (kd k : cls) : bool :=
+    negb (N.eqb k kd) && is_subclass u k kd
+    && match u_meta u k, u_meta u kd with
+       | Some mk, Some mkd =>
+           match m_target_qname mk with
+           | Some ((_ :: _) as t) =>
+               negb (str_eqb t (v_qname v))
+               && negb (ostr_eqb (m_target_qname mkd) (Some t))
+               && match sub_lookup kd t with Some k' => N.eqb k' k | None => false end
+               && match c_from_qname c t with None => true | Some _ => false end
+               && ok (PQName t) && qname_ok t
+           | _ => false
+           end
+       | _, _ => false
+       end.
+
   Definition fits_item (rec : cls -> value -> bool) (v : xvar) (x : value) : bool :=
     match vtype v with
-    | TClass k => match x with VObj _ _ => rec k x | _ => false end
+    | TClass k => match x with
+                  | VObj cl' _ => if N.eqb cl' k then rec k x else derived_ok v k cl' && rec cl' x
+                  | _ => false
+                  end
     | TQName => match x with VP p => qleaf_ok p | _ => false end
     | t => match x with VP p => leaf_ok t (v_format v) p && empty_ok v p | _ => false end
     end.
@@ -564,6 +598,28 @@ Fixpoint noq (v : value) : bool :=
   | VList _ l => nl l
   | VObj _ fs => nf fs
   | _ => true
+  end.
+
+(* every nested instance is of the class its field declares: no xsi:type attribute is written
+   (with noq: the hypothesis of the pump / document forms of the theorem) *)
+Fixpoint exact_classes (u : universe) (n : nat) (cl : cls) (o : value) {struct n} : bool :=
+  match n, o with
+  | S k, VObj cl' fs =>
+      N.eqb cl' cl
+      && match u_meta u cl with
+         | Some m =>
+             forallb (fun e => forallb (fun v =>
+                        match v_clazz v with
+                        | Some kd => match field_of fs v with
+                                     | VList _ l => forallb (exact_classes u k kd) l
+                                     | VNone => true
+                                     | x => exact_classes u k kd x
+                                     end
+                        | None => true
+                        end) (snd e)) (m_elements m)
+         | None => false
+         end
+  | _, _ => false
   end.
 
 Fixpoint odepth (v : value) : nat :=
